@@ -1170,7 +1170,7 @@ int main(int argc, char **argv)
     WCF.K = vf_g.thorough ? 3 : 2; WCF.alpha = walpha_small; WCF.nalpha = (int) (sizeof walpha_small / sizeof walpha_small[0]); WCF.with_noenc = true;
     if (vf_g.replay) replay_main();
     int deaths = vf_run_workers(worker);
-    static char bound[1400];
+    static char bound[3000];
     snprintf(bound, sizeof bound,
              "inputs: all sequences of <= %d tokens over the %d-token hostile alphabet (and of <= %d tokens over the 24-token core alphabet) framed as object and as array, all unframed sequences of <= %d tokens "
              "(incl. the empty and 1-byte buffers), all valid documents with <= %d value tokens and ALL their one-deviation mutants (each byte x 12 values, "
@@ -1192,6 +1192,10 @@ int main(int argc, char **argv)
     vf_evidence_spec es;
     memset(&es, 0, sizeof es);
     es.c_states = CT_STATES; es.c_transitions = CT_TRANS; es.c_validated = CT_TRANS;
+    snprintf(bound + strlen(bound), sizeof bound - strlen(bound), "%s", "; later additions: every pair (thorough: and triple) of small sibling subtrees and the pairs one level further down; a lookup with a 300-byte query; a continuation probe for "
+             "string_equals; a probe of the public definition macros; to_string / print on invalid documents must leave the error set (C09); a callback that renders the same parser at every token "
+             "(C16, termination only); writer part: single parametric operations (integers +-2^k+d, 10^k+-1, sparse patterns; lengths 0..64 and long ones), a refused parser_to_writer, "
+             "overlapping sources, capacities beyond any real buffer");
     es.bound = bound;
     es.rule = "exhaustive enumeration of inputs x configurations; breadth-first search over the byte image of (parser, state[]) + application shadow stack, exact-compare visited set; one transition = one real API call under ASan+UBSan with all monitors";
     es.assumptions = assumptions; es.nassumptions = 4;
